@@ -123,20 +123,23 @@ func (l mlog) toLog() *types.Log {
 }
 
 // logAlphabet: 3 addresses x topic lists of length 0..maxTopics over 3 topics.
-func logAlphabet(maxTopics int) []mlog {
+func logAlphabet(maxTopics int) []mlog { return logAlphabetN(maxTopics, 3) }
+
+// logAlphabetN: topic lists over the first nTop topics, except that with nTop == 2 the topics are T0 and T2.
+func logAlphabetN(maxTopics, nTop int) []mlog {
 	var out []mlog
 	for a := 0; a < 3; a++ {
 		for n := 0; n <= maxTopics; n++ {
 			total := 1
 			for i := 0; i < n; i++ {
-				total *= 3
+				total *= nTop
 			}
 			for c := 0; c < total; c++ {
 				ts := make([]common.Hash, n)
 				x := c
 				for i := 0; i < n; i++ {
-					ts[i] = topT[x%3]
-					x /= 3
+					ts[i] = topT[x%nTop*2%3] // nTop 3: T0,T2,T1; nTop 2: T0,T2
+					x /= nTop
 				}
 				out = append(out, mlog{addr: addrA[a], topics: ts, data: []byte{byte(a), byte(n), byte(c)}})
 			}
@@ -427,42 +430,48 @@ func part1() {
 	run.Set("receipts_checked", total)
 	run.Sample(map[string]interface{}{"part": "bloom-receipt", "logs": describeLogs([]mlog{alpha[5], alpha[200]})})
 
-	// 1b: all blocks with <= 2 receipts over receipts with <= 2 logs over a reduced log alphabet
-	maxT := 1
+	// 1b: all blocks with <= 2 receipts over receipts with <= 2 logs over reduced log alphabets:
+	// topic lists of length 0-1 over 3 topics; thorough also length 0-2 over 2 topics
+	type balpha struct{ maxT, nTop int }
+	alphas := []balpha{{1, 3}}
 	if run.Thorough() {
-		maxT = 2
+		alphas = append(alphas, balpha{2, 2})
 	}
-	ralpha := receiptAlphabet(logAlphabet(maxT))
-	nR := len(ralpha)
-	btotal := 1 + nR + nR*nR
-	ev.ParallelFor(btotal, func(i int) {
-		var rs []alphaReceipt
-		switch {
-		case i == 0:
-		case i <= nR:
-			rs = []alphaReceipt{ralpha[i-1]}
-		default:
-			j := i - 1 - nR
-			rs = []alphaReceipt{ralpha[j/nR], ralpha[j%nR]}
-		}
-		fails := checkBlockBloom(rs)
-		run.Eval(1)
-		if len(rs) > 0 {
-			key := fmt.Sprintf("block/receipts=%d", len(rs))
-			for _, r := range rs {
-				key += fmt.Sprintf("/logs=%d", len(r.logs))
+	btotal := 0
+	for _, ba := range alphas {
+		ralpha := receiptAlphabet(logAlphabetN(ba.maxT, ba.nTop))
+		nR := len(ralpha)
+		n := 1 + nR + nR*nR
+		btotal += n
+		ev.ParallelFor(n, func(i int) {
+			var rs []alphaReceipt
+			switch {
+			case i == 0:
+			case i <= nR:
+				rs = []alphaReceipt{ralpha[i-1]}
+			default:
+				j := i - 1 - nR
+				rs = []alphaReceipt{ralpha[j/nR], ralpha[j%nR]}
 			}
-			classes.LoadOrStore(key, true)
-		}
-		var idx [][]int
-		var txt []string
-		for _, r := range rs {
-			idx = append(idx, append([]int{}, r.idx...))
-			txt = append(txt, describeLogs(r.logs))
-		}
-		reportBloomFails("bloom-header", fails, map[string]interface{}{"part": "block", "max_topics": maxT, "receipts": idx, "receipts_text": txt},
-			func() []bloomFail { return checkBlockBloom(rs) })
-	})
+			fails := checkBlockBloom(rs)
+			run.Eval(1)
+			if len(rs) > 0 {
+				key := fmt.Sprintf("block/receipts=%d", len(rs))
+				for _, r := range rs {
+					key += fmt.Sprintf("/logs=%d", len(r.logs))
+				}
+				classes.LoadOrStore(key, true)
+			}
+			var idx [][]int
+			var txt []string
+			for _, r := range rs {
+				idx = append(idx, append([]int{}, r.idx...))
+				txt = append(txt, describeLogs(r.logs))
+			}
+			reportBloomFails("bloom-header", fails, map[string]interface{}{"part": "block", "max_topics": ba.maxT, "n_topics": ba.nTop, "receipts": idx, "receipts_text": txt},
+				func() []bloomFail { return checkBlockBloom(rs) })
+		})
+	}
 	run.Set("blocks_checked", btotal)
 	classes.Range(func(k, _ interface{}) bool { run.Class(k.(string)); return true })
 }
@@ -784,7 +793,11 @@ type backend struct {
 	reqs           chan chan *bloombits.Retrieval
 	quit           chan struct{}
 	mux            *event.TypeMux
-	feed           event.Feed
+	txFeed         event.Feed
+	chainFeed      event.Feed
+	rmLogsFeed     event.Feed
+	logsFeed       event.Feed
+	api            *filters.PublicFilterAPI
 }
 
 func newBackend(db aquadb.Database, size, sections uint64) *backend {
@@ -816,6 +829,8 @@ func newBackend(db aquadb.Database, size, sections uint64) *backend {
 			}
 		}()
 	}
+	// the RPC entry point aqua_getLogs (aqua/filters/api.go); its event system subscribes to the feeds above
+	b.api = filters.NewPublicFilterAPI(b, false)
 	return b
 }
 
@@ -826,16 +841,16 @@ func (b *backend) EventMux() *event.TypeMux                       { return b.mux
 func (b *backend) GetHeaderVersion(*big.Int) params.HeaderVersion { return 1 }
 func (b *backend) BloomStatus() (uint64, uint64)                  { return b.size, b.sections }
 func (b *backend) SubscribeTxPreEvent(ch chan<- core.TxPreEvent) event.Subscription {
-	return b.feed.Subscribe(ch)
+	return b.txFeed.Subscribe(ch)
 }
 func (b *backend) SubscribeChainEvent(ch chan<- core.ChainEvent) event.Subscription {
-	return b.feed.Subscribe(ch)
+	return b.chainFeed.Subscribe(ch)
 }
 func (b *backend) SubscribeRemovedLogsEvent(ch chan<- core.RemovedLogsEvent) event.Subscription {
-	return b.feed.Subscribe(ch)
+	return b.rmLogsFeed.Subscribe(ch)
 }
 func (b *backend) SubscribeLogsEvent(ch chan<- []*types.Log) event.Subscription {
-	return b.feed.Subscribe(ch)
+	return b.logsFeed.Subscribe(ch)
 }
 
 func (b *backend) HeaderByNumber(ctx context.Context, blockNr rpc.BlockNumber) (*types.Header, error) {
@@ -1137,12 +1152,24 @@ func logKeys(ls []*types.Log) []string {
 }
 
 // runQuery evaluates one query on the real filter. A panic is returned as an error string.
-func runQuery(b *backend, c *criteria, begin, end int) (logs []*types.Log, err error, panicked string) {
+func runQuery(b *backend, c *criteria, begin, end int, viaAPI bool) (logs []*types.Log, err error, panicked string) {
 	defer func() {
 		if r := recover(); r != nil {
 			panicked = fmt.Sprint(r)
 		}
 	}()
+	if viaAPI {
+		// PublicFilterAPI.GetLogs: an absent fromBlock / toBlock means "latest"
+		crit := filters.FilterCriteria{Addresses: c.addrs, Topics: c.tops}
+		if begin != -1 {
+			crit.FromBlock = big.NewInt(int64(begin))
+		}
+		if end != -1 {
+			crit.ToBlock = big.NewInt(int64(end))
+		}
+		logs, err = b.api.GetLogs(context.Background(), crit)
+		return
+	}
 	// hand the filter its own copies of the criteria: it must not depend on aliasing
 	f := filters.New(b, int64(begin), int64(end), c.addrs, c.tops)
 	logs, err = f.Logs(context.Background())
@@ -1210,8 +1237,12 @@ type verdict struct {
 }
 
 func evalQuery(st *state, c *criteria, matches [][]int, begin, end int) verdict {
+	return evalQueryVia(st, c, matches, begin, end, false)
+}
+
+func evalQueryVia(st *state, c *criteria, matches [][]int, begin, end int, viaAPI bool) verdict {
 	want := st.ch.expected(matches, begin, end)
-	got, err, pan := runQuery(st.b, c, begin, end)
+	got, err, pan := runQuery(st.b, c, begin, end, viaAPI)
 	switch {
 	case pan != "":
 		return verdict{bad: true, oracle: "no-panic", kind: "panic", panik: pan}
@@ -1246,12 +1277,12 @@ func (st *state) detail(c *criteria, begin, end int, v verdict) map[string]inter
 // query runs: after a crash of the process the last line is the query that was running.
 var traceFile *os.File
 
-func trace(st *state, c *criteria, begin, end int, part string) {
+func trace(st *state, c *criteria, begin, end int, part string, viaAPI bool) {
 	if traceFile == nil {
 		return
 	}
 	d := map[string]interface{}{"part": part, "L": st.ch.L, "rot": st.ch.rot, "layout": st.ch.layout, "size": st.size, "sections_indexed": st.k,
-		"begin": begin, "end": end, "addr_sel": c.ai, "topic_sel": c.tsel, "criteria": c.String()}
+		"begin": begin, "end": end, "addr_sel": c.ai, "topic_sel": c.tsel, "criteria": c.String(), "via_api": viaAPI}
 	b, _ := json.Marshal(d)
 	traceFile.Write(append(b, '\n'))
 }
@@ -1301,9 +1332,9 @@ type chainCfg struct {
 func tierCfgs(tier string) []chainCfg {
 	if tier != "thorough" {
 		return []chainCfg{
-			{L: 16, rot: 0, layout: 0, sizes: []int{8, 16}, gmp: 2, maxPos: 3},
-			{L: 21, rot: 5, layout: 1, sizes: []int{16}, gmp: 2, maxPos: 3},
-			{L: 19, rot: 2, layout: 0, sizes: []int{8}, gmp: 2, maxPos: 2},
+			{L: 16, rot: 0, layout: 0, sizes: []int{8}, gmp: 2, maxPos: 3},
+			{L: 21, rot: 5, layout: 1, sizes: []int{16}, gmp: 2, maxPos: 2},
+			{L: 16, rot: 0, layout: 0, sizes: []int{16}, gmp: 2, maxPos: 2},
 		}
 	}
 	return []chainCfg{
@@ -1485,41 +1516,56 @@ func part2(cfgs []chainCfg, deadline time.Time, shard, nshards int, col *collect
 				for begin := -1; begin <= ch.L+1; begin++ {
 					for end := -1; end <= ch.L+1; end++ {
 						flights.Store(j, fmt.Sprintf("L=%d size=%d k=%d %s begin=%d end=%d", ch.L, size, st.k, c.String(), begin, end))
-						trace(st, c, begin, end, "query")
-						v := evalQuery(st, c, matches[ci], begin, end)
-						progress.Add(1)
-						n++
-						res := "empty"
-						if len(st.ch.expected(matches[ci], begin, end)) > 0 {
-							res = "logs"
-						}
-						rc := fmt.Sprintf("begin=%s/end=%s", posClass(begin, indexed, head, false, begin), posClass(end, indexed, head, true, begin))
-						local[fmt.Sprintf("query/size=%d/%s/%s/%s", size, progClass(st.k, size, ch.L), rc, res)] = struct{}{}
-						if !v.bad {
-							continue
-						}
-						span := end - begin
-						if span < 0 || begin == -1 || end == -1 {
-							span = ch.L
-						}
-						weight := ((ch.L*8+st.k)*64+len(c.addrs)+2*len(c.tops))*4096 + span*64 + (begin + 1)
-						viol := ev.Violation{Scenario: "log-query", Oracle: v.oracle,
-							CaseID: fmt.Sprintf("size=%d/%s/%s", size, involvement(begin, end, indexed, head), v.kind),
-							Detail: st.detail(c, begin, end, v)}
-						if col.wouldKeep(viol, weight) {
-							// determinism: only a case that is going to be reported is re-evaluated (a failing
-							// retrieval makes the session close wait for its one-second kill timer)
-							for r := 0; r < 3; r++ {
-								v2 := evalQuery(st, c, matches[ci], begin, end)
-								if v2.bad != v.bad || v2.kind != v.kind {
-									ev.Broken("query verdict flips on re-evaluation (%s vs %s): %v", v.kind, v2.kind, st.detail(c, begin, end, v))
-								}
+						for _, viaAPI := range []bool{false, true} {
+							if viaAPI && begin != -1 && end != -1 {
+								break // the RPC entry point only adds the mapping of absent bounds to "latest"
 							}
-							col.violate(viol, weight)
-						}
-						if time.Now().After(deadline) {
-							capped.Store(true)
-							break ranges
+							trace(st, c, begin, end, "query", viaAPI)
+							v := evalQueryVia(st, c, matches[ci], begin, end, viaAPI)
+							progress.Add(1)
+							n++
+							res := "empty"
+							if len(st.ch.expected(matches[ci], begin, end)) > 0 {
+								res = "logs"
+							}
+							rc := fmt.Sprintf("begin=%s/end=%s", posClass(begin, indexed, head, false, begin), posClass(end, indexed, head, true, begin))
+							entry := "Filter.Logs"
+							if viaAPI {
+								entry = "PublicFilterAPI.GetLogs"
+							}
+							local[fmt.Sprintf("query/%s/size=%d/%s/%s/%s", entry, size, progClass(st.k, size, ch.L), rc, res)] = struct{}{}
+							if !v.bad {
+								continue
+							}
+							span := end - begin
+							if span < 0 || begin == -1 || end == -1 {
+								span = ch.L
+							}
+							weight := ((ch.L*8+st.k)*64+len(c.addrs)+2*len(c.tops))*4096 + span*64 + (begin + 1)
+							d := st.detail(c, begin, end, v)
+							scn := "log-query"
+							if viaAPI {
+								scn = "log-query-rpc"
+								d["via_api"] = true
+								d["msg"] = strings.Replace(d["msg"].(string), "filters.New(backend, ", "PublicFilterAPI.GetLogs(-1 = absent bound; ", 1)
+							}
+							viol := ev.Violation{Scenario: scn, Oracle: v.oracle,
+								CaseID: fmt.Sprintf("size=%d/%s/%s", size, involvement(begin, end, indexed, head), v.kind), Detail: d}
+							if col.wouldKeep(viol, weight) {
+								// determinism: only a case that is going to be reported is re-evaluated (a failing
+								// retrieval makes the session close wait for its one-second kill timer)
+								for r := 0; r < 3; r++ {
+									v2 := evalQueryVia(st, c, matches[ci], begin, end, viaAPI)
+									if v2.bad != v.bad || v2.kind != v.kind {
+										ev.Broken("query verdict flips on re-evaluation (%s vs %s): %v", v.kind, v2.kind, d)
+									}
+								}
+								col.violate(viol, weight)
+							}
+							if time.Now().After(deadline) {
+								capped.Store(true)
+								break ranges
+							}
 						}
 					}
 				}
@@ -1650,7 +1696,7 @@ func partProd(deadline time.Time, shard, nshards int, col *collector) {
 		for _, begin := range pts {
 			for _, end := range pts {
 				flights.Store(j, fmt.Sprintf("prod k=%d %s begin=%d end=%d", st.k, c.String(), begin, end))
-				trace(st, c, begin, end, "prod-query")
+				trace(st, c, begin, end, "prod-query", false)
 				v := evalQuery(st, c, m, begin, end)
 				progress.Add(1)
 				n++
@@ -1749,7 +1795,8 @@ func oneQuery(d map[string]interface{}) (verdict, *state, criteria) {
 			}
 		}
 	}
-	return evalQuery(st, &c, m, num(d, "begin"), num(d, "end")), st, c
+	via, _ := d["via_api"].(bool)
+	return evalQueryVia(st, &c, m, num(d, "begin"), num(d, "end"), via), st, c
 }
 
 // panicLine extracts the panic message of a crashed process.
@@ -1836,7 +1883,7 @@ func handleCrash(shard, nshards int, output string, baseEnv []string) {
 	defer os.Remove(path)
 	died := false
 	var out2 string
-	budget := 70 * time.Second
+	budget := 60 * time.Second
 	if run.Thorough() {
 		budget = 11 * time.Minute
 	}
@@ -1895,7 +1942,11 @@ func replay(d *ev.ReplayDoc) {
 		reportBloomFails("bloom-receipt", checkReceiptBloom(logs), map[string]interface{}{"part": "receipt", "logs": d.Detail["logs"]},
 			func() []bloomFail { return checkReceiptBloom(logs) })
 	case "block":
-		ralpha := receiptAlphabet(logAlphabet(num(d.Detail, "max_topics")))
+		nTop := num(d.Detail, "n_topics")
+		if nTop == 0 {
+			nTop = 3
+		}
+		ralpha := receiptAlphabet(logAlphabetN(num(d.Detail, "max_topics"), nTop))
 		var rs []alphaReceipt
 		if l, ok := d.Detail["receipts"].([]interface{}); ok {
 			for _, r := range l {
@@ -2010,12 +2061,17 @@ func TestCheck(t *testing.T) {
 	}
 	run = ev.Start("exploration")
 	run.Rule = "part 1: every receipt with one log over {3 addresses x topic lists of length 0-4 over 3 topics}, every receipt with two such logs " +
-		"(quick: logs with <= 3 topics) and every block with <=2 receipts over a reduced alphabet; a case is distinct by its log multiset shape. " +
+		"(quick: logs with <= 3 topics) and every block with <=2 receipts over reduced alphabets; a case is distinct by its log multiset shape. " +
 		"part 2: every (chain, section size, number of indexed sections, address list x positional topic alternatives, begin, end) with " +
-		"begin,end in {-1,0..L+1}; a query is non-trivial by where begin/end lie relative to the indexed boundary and the head and whether logs are expected"
+		"begin,end in {-1,0..L+1} through filters.New(...).Logs, and every query with an open end also through PublicFilterAPI.GetLogs; " +
+		"a query is non-trivial by where begin/end lie relative to the indexed boundary and the head and whether logs are expected. " +
+		"thorough adds the production section size 4096 (index built by the real ChainIndexer/BloomIndexer) with begin,end over all pairs of 15 boundary points"
 	run.Assume("log alphabet: addresses {zero, leading-zero, all-ones}, topics {zero, event-signature-like, all-ones}, one unknown address and one unknown topic; data does not enter blooms")
-	run.Assume("chains of 16-40 blocks, section sizes 8 and 16; the bloom-bits vectors of bits >= section size are read with an in-package accessor because Generator.Bitset refuses them for sections smaller than 2048 blocks")
+	run.Assume("chains of 16-40 blocks (dense: all 8 block kinds in every aligned group of 8; sparse: alternate groups blanked), section sizes 8 and 16; " +
+		"the bloom-bits vectors of bits >= section size are read with an in-package accessor because Generator.Bitset refuses them for sections smaller than 2048 blocks")
+	run.Assume("address lists {none, {A0}, {A0,A1}, {unknown}}; per topic position {wildcard, {t}, {t,u}, {unknown}}, 0-3 positions (0-2 for some chains, see coverage.chains)")
 	run.Assume("the matcher goroutine pipeline runs free (no schedule enumeration) in worker processes with GOMAXPROCS 2 (thorough: one configuration also with 1 and 4); header version 1 (keccak) for all blocks")
+	run.Assume("reference semantics: begin/end -1 = current head, nothing beyond the head, begin > end is empty; the backend mirrors aqua.AquaApiBackend (3 multiplexers per session, handlers as in aqua.startBloomHandlers with the section size as parameter)")
 	if d := ev.Replay(); d != nil {
 		replay(d)
 		run.Finish()
@@ -2033,7 +2089,7 @@ func TestCheck(t *testing.T) {
 		desc = append(desc, fmt.Sprintf("L=%d rot=%d layout=%d sizes=%v gomaxprocs=%d topic-positions<=%d criteria=%d", c.L, c.rot, c.layout, c.sizes, c.gmp, c.maxPos, len(allCriteria(c.maxPos))))
 	}
 	run.Set("chains", desc)
-	deadline := run.Deadline(70*time.Second, 11*time.Minute)
+	deadline := run.Deadline(60*time.Second, 11*time.Minute)
 	if v, err := strconv.Atoi(os.Getenv("VERIF_C16_DEADLINE_S")); err == nil { // developer aid on a busy machine
 		deadline = time.Now().Add(time.Duration(v) * time.Second)
 	}
